@@ -1,11 +1,13 @@
 #!/bin/bash
 # usage: tools/seeded_all.sh [seed-id...]  - every seeded change (or the named ones) against the check(s) named first in its
-# meta.json "caught_by", in a scratch worktree of /repo (so /repo itself stays untouched and other checks can run meanwhile).
+# meta.json "caught_by", in a scratch worktree of /repo and from a snapshot of /verif taken at the start (so /repo, the
+# evidence files and the harness can be worked on meanwhile).
 set -u
 W=$(mktemp -d /tmp/seeded-repo-XXXX)
 git -C /repo worktree add -q --detach $W/repo HEAD || exit 2
 trap 'git -C /repo worktree remove --force $W/repo; rm -rf $W' EXIT
-cd /verif
+rsync -a --exclude .git --exclude evidence/replays /verif/ $W/verif/
+cd $W/verif
 ids=${@:-$(ls seeded)}
 for id in $ids; do
   checks=$(python3 - "$id" <<'PY'
